@@ -120,7 +120,7 @@ CLAIMS = {
     "C08": (
         "property-based testing (rapid) with validity predicates over the returned graph; specifier satisfaction and pip's prerelease rule computed by packaging (SpecifierSet.filter); marker truth known by construction",
         "Generated PyPI universes and roots are resolved; whenever the graph carries no error: one node per package with the root never replaced, every requirement whose marker is true (given the extras requested on the incoming edges) has an edge to the selected version, that version satisfies the requirement (prereleases allowed) and lies in packaging's SpecifierSet(conjunction of all specifiers on the package).filter(all versions) - pip's prerelease rule -, requirements with false markers have no edge, every edge stems from a requirement, every node is reachable. Asserted where packaging 26.x and 21.3 agree. Holds on everything explored; not a proof.",
-        "Trusts packaging for specifier semantics. Edges left by a replaced pin (resolvelib 0.7 as vendored by the modelled pip keeps the requirement information of a replaced candidate) are recognised and counted, not asserted. Three listed findings are stepped around by narrow classes.",
+        "Trusts packaging for specifier semantics. Until the graph construction was repaired (e91457d) edges left by a replaced pin were tolerated; they are asserted now. Two listed findings are stepped around by narrow classes.",
         "DESIGN.md §7 C08, §12.2, §12.6",
     ),
 }
